@@ -92,7 +92,7 @@ def pinnedArgSkeleton : List (String × String) := [
   ("Root.formReflectArgs", "d5fdfd091c17"),
   ("Root.replaceArgVars", "8e6170986780"),
   ("Root.resolveField", "d8dcc1486960"),
-  ("Root.resolveReflect", "3ca8b8cb64d4"),
+  ("Root.resolveReflect", "15757bc1bc70"),
   ("checkReflectArgs", "2fe173b3f604")
 ]
 
